@@ -900,10 +900,7 @@ func (x *Unit) evalN(st *State, e ast.Expr, n int) []Val {
 		default:
 			// method value: abstract closure
 			recv := x.eval(st, e.X)
-			ref := x.fresh("methval", SInt)
-			x.fact(Cmp(">", ref, IntLit(0)))
-			x.eng.closures[ref.S] = &closure{method: sel.Obj().(*types.Func), recv: &recv, unit: x}
-			return []Val{{ref, sel.Type()}}
+			return []Val{x.methodValue(recv, sel.Obj().(*types.Func), sel.Type())}
 		}
 	case *ast.StarExpr:
 		p := x.eval(st, e.X)
@@ -938,6 +935,23 @@ func (x *Unit) evalN(st *State, e ast.Expr, n int) []Val {
 	}
 	x.unsupportedf(e, "expression %T", e)
 	return []Val{x.freshVal(st, "expr", x.info.TypeOf(e))}
+}
+
+// methodValue: the bound method recv.m as an abstract closure. For a pointer (or other reference) receiver it is a
+// function of the receiver, so that two method values of the same method and object are the same value in contracts.
+func (x *Unit) methodValue(recv Val, m *types.Func, typ types.Type) Val {
+	var ref T
+	if recv.Sort == SInt {
+		name := "methval_" + mangle(m.FullName())
+		x.u.DeclFun(name, "(Int) Int")
+		ref = App(SInt, name, recv.T)
+	} else {
+		ref = x.fresh("methval", SInt)
+	}
+	x.fact(Cmp(">", ref, IntLit(0)))
+	r := recv
+	x.eng.closures[ref.S] = &closure{method: m, recv: &r, unit: x}
+	return Val{ref, typ}
 }
 
 func (x *Unit) funcValue(o *types.Func) Val {
